@@ -7,3 +7,4 @@ pub mod modular;
 pub mod frame;
 pub mod model;
 pub mod icc;
+pub mod jpeg;
